@@ -45,8 +45,10 @@ Lemma clause_atan2 :
      exists theta, polar_angle x y theta /\ Rabs (real_atan2 R_ops y x - theta) <= Rabs (c_pi R_ops - PI)) /\
   (Rabs (c_pi R_ops - PI) <= / 4503599627370496 /\ c_pi_2 R_ops = c_pi R_ops / 2) /\
   real_atan2 R_ops 0 0 = 0 /\
-  (forall x y, - PI < real_atan2 R_ops y x <= PI).
-Proof. exact (conj atan2_angle (conj (conj c_pi_close c_pi_2_half) (conj atan2_origin atan2_range))). Qed.
+  (forall x y, - PI < real_atan2 R_ops y x <= PI) /\
+  (forall x, Rabs (real_rad2deg R_ops x - x * (180 / PI)) <= / 9007199254740992 * Rabs (x * (180 / PI))) /\
+  (forall x, Rabs (real_deg2rad R_ops x - x * (PI / 180)) <= / 9007199254740992 * Rabs (x * (PI / 180))).
+Proof. exact (conj atan2_angle (conj (conj c_pi_close c_pi_2_half) (conj atan2_origin (conj atan2_range (conj rad2deg_spec deg2rad_spec))))). Qed.
 
 (* the body before fix 4df114e: at (x, y) = (0, 1) the polar angle is PI/2 <= 2, the body returned the double PI > 3.
    (no interval arithmetic here: exact value of the literal, and PI <= 4 from the standard library) *)
